@@ -283,7 +283,7 @@ theorem specStep_final (t : RSpec) (op : ROp) :
       · rename_i t' hs
         split at hs
         · cases hs
-        · cases hs; exact hf
+        · cases hs; rfl
       · exact hf
     | none => rfl
 
